@@ -69,8 +69,8 @@ var objOps = [][]string{
 	oIss3:  {"Evaluate", "TokenKey", "TokenKeyID", "NameKey"},
 	oIss5:  {"Evaluate", "Verify", "TokenKey", "TokenKeyID"},
 	oBatch: {"EvaluateBatch"},
-	oECDSA: {"Sign", "SignASN1", "Verify", "VerifyASN1", "BlindPublicKeyWithContext", "UnblindPublicKeyWithContext", "BlindKeySignWithContext", "PrivateKey.Sign", "Public"},
-	oEd:    {"Sign", "Verify", "BlindPublicKeyWithContext", "UnblindPublicKeyWithContext", "BlindKeySignWithContext", "Public"},
+	oECDSA: {"Sign", "SignASN1", "Verify", "VerifyASN1", "BlindPublicKeyWithContext", "UnblindPublicKeyWithContext", "BlindKeySignWithContext", "PrivateKey.Sign", "Public", "VerifyOtherKey"},
+	oEd:    {"Sign", "Verify", "BlindPublicKeyWithContext", "UnblindPublicKeyWithContext", "BlindKeySignWithContext", "Public", "VerifyOtherKey", "VerifyOtherKey"},
 }
 
 func (c c17) Generate(seed uint64, tier string, idx int) *core.Plan {
@@ -139,18 +139,20 @@ func (c c17) Generate(seed uint64, tier string, idx int) *core.Plan {
 }
 
 type c17obj struct {
-	kind  int
-	i1    *type1.BasicPrivateIssuer
-	i2    *type2.BasicPublicIssuer
-	i2b   *type2.BasicPublicIssuer
-	i3    *type3.RateLimitedIssuer
-	i5    *type5.BatchedPrivateIssuer
-	bi    *batched.BasicBatchedIssuer
-	ek    *ecdsa.PrivateKey
-	ebk   *ecdsa.PrivateKey
-	edk   ed25519.PrivateKey
-	edpub ed25519.PublicKey
-	edbl  []byte
+	kind   int
+	i1     *type1.BasicPrivateIssuer
+	i2     *type2.BasicPublicIssuer
+	i2b    *type2.BasicPublicIssuer
+	i3     *type3.RateLimitedIssuer
+	i5     *type5.BatchedPrivateIssuer
+	bi     *batched.BasicBatchedIssuer
+	ek     *ecdsa.PrivateKey
+	ebk    *ecdsa.PrivateKey
+	edk    ed25519.PrivateKey
+	edpub  ed25519.PublicKey
+	edpub2 ed25519.PublicKey // a second verification key (other tasks verify under it)
+	ek2    *ecdsa.PrivateKey
+	edbl   []byte
 }
 
 type c17arg struct {
@@ -227,11 +229,17 @@ func (e *c17env) mkObj(src *entropy.Source) *c17obj {
 		b[0] = 0
 		b[1] |= 1
 		o.ebk, _ = ecdsa.CreateKey(e.cv, b)
+		d2 := entropy.Block(e.p.Seed, 0, "config", "c17/ec2", w, 0)
+		d2[0] = 0
+		d2[1] |= 1
+		o.ek2, _ = ecdsa.CreateKey(e.cv, d2)
 	case oEd:
 		// derived with crypto/ed25519 (byte-identical) so that constructing the object does not
 		// touch the fork's package-level tables: their first use happens inside the tasks
 		o.edk = ed25519.PrivateKey(stded.NewKeyFromSeed(seed[:32]))
 		o.edpub = append(ed25519.PublicKey(nil), o.edk[32:]...)
+		k2 := stded.NewKeyFromSeed(entropy.Block(e.p.Seed, 0, "config", "c17/ed2", 32, 0))
+		o.edpub2 = append(ed25519.PublicKey(nil), k2[32:]...)
 		o.edbl = entropy.Block(e.p.Seed, 0, "config", "c17/edblind", 32, 0)
 	}
 	return o
@@ -331,11 +339,16 @@ func (e *c17env) mkArg(src *entropy.Source, helper *c17obj, op string, seed int6
 		if err != nil {
 			return nil, err
 		}
+		std2 := &stdecdsa.PrivateKey{PublicKey: stdecdsa.PublicKey{Curve: e.cv, X: helper.ek2.X, Y: helper.ek2.Y}, D: helper.ek2.D}
+		if a.sigR, err = stdecdsa.SignASN1(entropy.Reader(), std2, a.digest); err != nil {
+			return nil, err
+		}
 		a.tok.Nonce, a.tok.Context = rr.Bytes(), ss.Bytes()
 	case oEd:
 		a.msg = r.Bytes(int(seed % 100))
 		a.ctx = r.Bytes(int(seed % 20))
 		a.sigR = stded.Sign(stded.PrivateKey(helper.edk), a.msg)
+		a.der = stded.Sign(stded.NewKeyFromSeed(entropy.Block(e.p.Seed, 0, "config", "c17/ed2", 32, 0)), a.msg)
 	}
 	return a, nil
 }
@@ -448,6 +461,8 @@ func (e *c17env) call(o *c17obj, op string, a *c17arg) (out []byte) {
 		case "Public":
 			pk := o.ek.Public().(*ecdsa.PublicKey)
 			return elliptic.Marshal(cv, pk.X, pk.Y)
+		case "VerifyOtherKey":
+			return []byte(fmt.Sprint(ecdsa.VerifyASN1(&o.ek2.PublicKey, a.digest, a.sigR)))
 		}
 	case oEd:
 		switch op {
@@ -465,6 +480,8 @@ func (e *c17env) call(o *c17obj, op string, a *c17arg) (out []byte) {
 			return ed25519.BlindKeySignWithContext(o.edk, a.msg, o.edbl, a.ctx)
 		case "Public":
 			return o.edk.Public().(ed25519.PublicKey)
+		case "VerifyOtherKey":
+			return []byte(fmt.Sprint(ed25519.Verify(o.edpub2, a.msg, a.der)))
 		}
 	}
 	return []byte("unknown-op")
